@@ -183,7 +183,8 @@ def gen_kv(rng):
             v = rng.choice(["v", "1", "", "a%sb" % sep, "x y  z", "val%sue%s" % (sep, sep), "/p/a/th", "é", "true"])
             if sep in k:
                 k = "kz"
-            trail = rng.choice(["", "", "  " + cc + " trailing comment", cc + "c", " " + cc + " note " + cc + " again", cc + cc])
+            trail = rng.choice(["", "", "  " + cc + " trailing comment", cc + "c", " " + cc + " note " + cc + " again", cc + cc,
+                                "  " + cc + " key7 = v1 (commented out)"])
             lead = rng.choice(["", "", "  ", "\t"])
             sp = rng.choice(["", " ", "  "]) if sep.strip() else ""
             items.append(["pair", k, v, lead, sp, trail])
@@ -553,10 +554,15 @@ def run_ini(spec, ctx):
 def run_search(spec, ctx):
     from insights.parsers import keyword_search
     rows = spec["rows"]
-    for conds in spec["queries"]:
+    for qi, conds in enumerate(spec["queries"]):
         class Parent(object):
             pass
-        got = keyword_search(list(rows), parent=Parent(), row_keys_change=spec["row_keys_change"], **conds)
+        # every other search is made on the plain list without a parent object to keep a cache on
+        if qi % 2:
+            got = keyword_search(list(rows), row_keys_change=spec["row_keys_change"], **conds)
+            ctx.count("keyword_searches_without_a_parent")
+        else:
+            got = keyword_search(list(rows), parent=Parent(), row_keys_change=spec["row_keys_change"], **conds)
         # reference filter
         if not conds or not rows:
             exp = []
